@@ -682,5 +682,26 @@ func c01Meta(fam *Family) string {
 			fam.Instances = append(fam.Instances, Instance{Func: fn, Stratum: "metadata", Desc: hdr + " return " + at.tok, Text: text, Expect: []string{"executed"}})
 		}
 	}
+	// several rules in one text: every rule sees its own metadata (a rule without
+	// description / salience after one that has them)
+	multi := "rule \"10\" \"first\" salience 10 begin\n return AT\nend\nrule \"second\" begin\n return AT\nend\nrule \"3\" \"third\" salience -4 begin\n return AT\nend\nrule \"4x\" salience 8 begin\n return AT\nend\nrule \"5\" \"fifth\" begin\n return AT\nend\n"
+	want := map[string][]string{
+		"@name": {"\"10\"", "\"second\"", "\"3\"", "\"4x\"", "\"5\""},
+		"@id":   {"int64(10)", "int64(0)", "int64(3)", "int64(0)", "int64(5)"},
+		"@desc": {"\"first\"", "\"\"", "\"third\"", "\"\"", "\"fifth\""},
+		"@sal":  {"int64(10)", "int64(0)", "int64(-4)", "int64(8)", "int64(0)"},
+	}
+	goT := map[string]string{"@name": "string", "@id": "int64", "@desc": "string", "@sal": "int64"}
+	rn := []string{"10", "second", "3", "4x", "5"}
+	for _, at := range []string{"@name", "@id", "@desc", "@sal"} {
+		fn := "D_meta_multi_" + strings.TrimPrefix(at, "@")
+		text := strings.ReplaceAll(multi, "AT", at)
+		fmt.Fprintf(&b, "\nfunc %s() {\n\tdc := context.NewDataContext()\n\tcompiled, err, res := run(dc, %q)\n\tvnd.Assert(compiled, \"compiles\")\n\tvnd.Reach(\"executed\")\n\tvnd.Assert(err == nil, \"no error\")\n", fn, text)
+		for k, r := range rn {
+			fmt.Fprintf(&b, "\t{\n\t\tgot, ok := res[%q].(%s)\n\t\tvnd.Assert(ok, \"result type\")\n\t\tvnd.Assert(got == %s, \"each rule sees its own metadata\")\n\t}\n", r, goT[at], want[at][k])
+		}
+		b.WriteString("}\n")
+		fam.Instances = append(fam.Instances, Instance{Func: fn, Stratum: "metadata", Desc: "five rules each returning " + at, Text: text, Expect: []string{"executed"}})
+	}
 	return b.String()
 }
